@@ -176,12 +176,21 @@ package coroutines
 //@ ghostdb coroutine
 //@ nopanic C13
 //@ requires c != nil && config != nil && tags != nil
+//@ site loop 1 batch assert cmd.Kind == t_aio.UpdateTask && cmd.UpdateTask != nil && cmd.UpdateTask.Id == t.Id && cmd.UpdateTask.CurrentCounter == t.Counter && mask(cmd.UpdateTask.CurrentStates) == t.State
+//@ site loop 1 batch assert (now() < t.Timeout ==> cmd.UpdateTask.State == task.Init && cmd.UpdateTask.Counter == t.Counter + 1) && (now() >= t.Timeout ==> cmd.UpdateTask.State == task.Timedout && cmd.UpdateTask.Counter == t.Counter)
 
 //@ func EnqueueTasks$1
-//@ props C07 C08
+//@ props C07 C08 C19
 //@ ghostdb coroutine
 //@ nopanic C13
 //@ requires c != nil && config != nil && tags != nil
+//@ site loop 2 yield sender assert sub != nil && sub.Task != nil && sub.Task.Id == r.Id && sub.Task.Counter == r.Counter && sub.ClaimHref == sprintf("%s/tasks/claim/%s/%d", config.Url, r.Id, r.Counter) && sub.CompleteHref == sprintf("%s/tasks/complete/%s/%d", config.Url, r.Id, r.Counter) && sub.HeartbeatHref == sprintf("%s/tasks/heartbeat/%s/%d", config.Url, r.Id, r.Counter)
+//@ site loop 2 yield sender assert now() < r.Timeout && sub.Task.Recv == r.Recv && sub.Task.RootPromiseId == r.RootPromiseId
+//@ site loop 2 batch assert cmd.Kind == t_aio.UpdateTask && cmd.UpdateTask != nil && cmd.UpdateTask.Id == r.Id && cmd.UpdateTask.State == task.Timedout && now() >= r.Timeout && cmd.UpdateTask.Counter == r.Counter && cmd.UpdateTask.CurrentCounter == r.Counter && mask(cmd.UpdateTask.CurrentStates) == task.Init
+//@ site loop 3 batch assert cmd.Kind == t_aio.UpdateTask && cmd.UpdateTask != nil && cmd.UpdateTask.Id == t.Id && cmd.UpdateTask.Counter == t.Counter && cmd.UpdateTask.CurrentCounter == t.Counter && mask(cmd.UpdateTask.CurrentStates) == task.Init
+//@ site loop 3 batch assert cmd.UpdateTask.State == task.Enqueued ==> err == nil && completion.Sender.Success && decodedT.Mesg.Type != message.Notify
+//@ site loop 3 batch assert decodedT.Mesg.Type == message.Notify ==> cmd.UpdateTask.State == task.Completed
+//@ site loop 3 batch assert decodedT.Mesg.Type != message.Notify && !(err == nil && completion.Sender.Success) ==> cmd.UpdateTask.State == task.Init && cmd.UpdateTask.Attempt == t.Attempt + 1
 
 //@ func SchedulePromises$1
 //@ props C01 C08 C10
@@ -189,6 +198,9 @@ package coroutines
 //@ nopanic C13
 //@ overflow C10
 //@ requires c != nil && config != nil && tags != nil
+//@ site call createPromise assert r.NextRunTime <= now() && promiseCmd != nil && promiseCmd.Timeout == r.PromiseTimeout + r.NextRunTime && promiseCmd.Param.Data == r.PromiseParamData && promiseCmd.CreatedOn == now() && taskCmd == nil
+//@ site call createPromise assert promiseCmd.Tags["resonate:schedule"] == r.Id && promiseCmd.Tags["resonate:invocation"] == "true"
+//@ site call createPromise assert len(additionalCmds) == 1 && additionalCmds[0].Kind == t_aio.UpdateSchedule && additionalCmds[0].UpdateSchedule != nil && additionalCmds[0].UpdateSchedule.Id == r.Id && additionalCmds[0].UpdateSchedule.LastRunTime != nil && *additionalCmds[0].UpdateSchedule.LastRunTime == r.NextRunTime && additionalCmds[0].UpdateSchedule.NextRunTime == cronnext(r.Cron, r.NextRunTime)
 
 //@ func completePromise$1
 //@ props C01 C04 C05 C08
